@@ -5,7 +5,7 @@ ID = "C17"
 GEN = "c17"
 HARNESS_TEST = "TestC17"
 COQ_MODEL = ["C17/Check.v", "Gen/C17Facts.v", "C17/Current.v"]
-COQ_PROOF_DEPS = ["C17/Proofs.v"]
+COQ_PROOF_DEPS = ["C17/Proofs.v", "C17/IcaList.v"]
 COQ_OBLIG = ["C17/Property.v", "Gen/C17Oblig.v"]
 CASES_HEADER = "Require Import Nib.C17.AnteFacts Nib.C17.MsgTree Nib.C17.Model Nib.C17.Spec Nib.C17.Check Nib.C17.Current."
 CASE_TYPE = "case"
